@@ -318,6 +318,23 @@ def analyse_full(fn, facts):
         if bits != 64:
             narrowed = t
         on = unwrap(on.get("e"))
+    key_decl = None
+    if isinstance(on, dict) and on.get("k") == "Ref" and on.get("d") == "local":
+        # `const int64_t key = dec.read_integer(); switch (key)`: a loop-level local, written nowhere else, read just
+        # before the dispatch, is the key
+        kkey = "l:%s#%s" % (on.get("n"), on.get("id"))
+        for s_ in body:
+            if s_.get("k") == "Decl" and len(s_.get("vars", [])) == 1 and s_["vars"][0].get("id") == on.get("id") and \
+                    s_["vars"][0].get("init") is not None and kkey not in env.assigned and body.index(s_) < body.index(sw):
+                ini = unwrap(s_["vars"][0]["init"])
+                tv = (s_["vars"][0].get("t") or "").replace("const ", "")
+                if tv not in ("long", "unsigned long", "long long", "unsigned long long"):
+                    narrowed = tv
+                while isinstance(ini, dict) and ini.get("k") == "Cast":
+                    ini = unwrap(ini.get("e"))
+                if isinstance(ini, dict) and decoder_call(ini) == "read_integer":
+                    key_decl = s_
+                    on = ini
     if not (isinstance(on, dict) and decoder_call(on) == "read_integer"):
         mr.problems.append(("key", sw["l"], "switch operand is %s; the key must be read with read_integer() exactly once per iteration" % show(sw["cond"])))
     elif narrowed:
@@ -325,7 +342,7 @@ def analyse_full(fn, facts):
                             "narrower type is taken for that member instead of being skipped" % narrowed))
     # other item consumption at loop level outside the switch and the break test
     for s in body[1:]:
-        if s is sw:
+        if s is sw or s is key_decl:
             continue
         for c in consumes_in(s, facts):
             mr.problems.append(("extra", c.line, "item consumed outside the switch (%s)" % show(c.call)))
